@@ -49,6 +49,7 @@ func verifFixedLogs(seed int, rich bool) plog.Logs {
 	for i := 0; i < 2; i++ {
 		lr := sl.LogRecords().AppendEmpty()
 		lr.SetTimestamp(pcommon.Timestamp(1000 + seed + i))
+		lr.SetSpanID(pcommon.SpanID{byte(seed + 1), byte(i + 1)})
 		lr.Body().SetStr("body")
 		if rich {
 			lr.Attributes().PutInt("k", int64(seed+i))
@@ -237,7 +238,11 @@ func VerifHarness_C07_faults() {
 		// damaged batch) but decoding it must not crash the consumer
 		next := produce(8, rich)
 		if next != nil {
-			_, _ = consume(next)
+			n2, err2 := consume(next)
+			if err2 == nil {
+				// an unaltered batch that is accepted must deliver its main record
+				rt.Assert(n2 == want, "C07.faults.followup_no_silent_drop")
+			}
 		}
 		rt.Reach("C07.faults.followup_survived")
 	}
